@@ -612,7 +612,13 @@ Definition set_peer (c : config) (st : state) (i q : nat) : state * Z :=
                 let ci' := mkCinfo (ci_in ci) (ci_fd ci) false (ci_peer ci) (ci_ip ci) (ci_ep ci) in
                 let '(mt, e) := transfer_allowed m i in (mt, ci', System, Transient, e)
               else (m, ci, ASystem, ATransient, None)
-            else (m, ci, System, Transient, None) in
+            else
+              (* an earlier refused transfer left the connection without edges:
+                 charge the standard scopes now (fix e9a9a54) *)
+              match edges_of m (Conn i) with
+              | [] => let '(mt, e) := transfer_allowed m i in (mt, ci, System, Transient, e)
+              | _ => (m, ci, System, Transient, None)
+              end in
           match terr with
           | Some e => (mkState m1 (nset (conns st) i ci1) (streams st) (lims st), ecode (Some e))
           | None =>
